@@ -52,6 +52,21 @@ class BadLen:
         raise TypeError("no len")
 
 
+class BadBool:
+    def __bool__(self):
+        raise ValueError("no truth value")
+
+
+class Falsy:
+    """A perfectly good object that happens to be empty."""
+
+    def __init__(self):
+        self.items = []
+
+    def __len__(self):
+        return 0
+
+
 class Color(enum.Enum):
     RED = 1
     BLUE = 2
